@@ -1,7 +1,7 @@
 import Copia.Lemmas.ReconcileTable
 import Copia.Props.C18
 import Copia.Model.Bisync
-import Copia.Lemmas.Bisync11
+import Copia.Lemmas.Bisync12
 /-!
 # C06 — bisync converges, records what it did, and is idempotent
 
@@ -103,19 +103,6 @@ theorem second_run_noop (le : P → P → Bool)
   rw [bisync_of_run le ge cname o.state _ 0 hrun]
   exact ⟨hplan, rfl, rfl, rfl⟩
 
-theorem both_changed_decision (xa yb : C) (z : Option (Fp C)) (hne : xa ≠ yb)
-    (h1 : z ≠ some (mkFp xa)) (h2 : z ≠ some (mkFp yb)) :
-    reconcilePath (some (mkFp xa)) (some (mkFp yb)) z = .conflict .bothChanged := by
-  simp only [reconcilePath, same_mkFp, hne, decide_false, Bool.false_eq_true, if_false]
-  cases z with
-  | none => rfl
-  | some zv =>
-    have e1 : Fp.same (mkFp xa) zv = false := by
-      rw [Fp.same_eq_decide]; simp; intro e; exact h1 (by rw [e])
-    have e2 : Fp.same (mkFp yb) zv = false := by
-      rw [Fp.same_eq_decide]; simp; intro e; exact h2 (by rw [e])
-    simp [e1, e2]
-
 /-- C06 (conflict outcome, whole run under NoNameClash): a divergent edit — both sides hold the path
 with different contents and neither equals the recorded base — resolves on BOTH sides to the winner
 (`ge` = greater BLAKE3) at the path and the loser at `cname path loser`
@@ -149,62 +136,6 @@ theorem conflict_outcome (le : P → P → Bool)
   rw [hA, hB] at pa pb
   exact ⟨by simpa [resolve] using pa, by simpa [resolve] using pb, ca, cb⟩
 
-
-theorem swapAct_swapAct (a : Action) : swapAct (swapAct a) = a := by cases a <;> rfl
-
-theorem winner_comm (ge : C → C → Bool) (tot : ∀ a b, ge a b = true ∨ ge b a = true)
-    (anti : ∀ a b, ge a b = true → ge b a = true → a = b) (xa yb : C) : winner ge yb xa = winner ge xa yb := by
-  unfold winner
-  cases h1 : ge xa yb <;> cases h2 : ge yb xa <;> simp
-  · rcases tot xa yb with h | h <;> simp_all
-  · exact (anti xa yb h1 h2).symm
-
-theorem loser_comm (ge : C → C → Bool) (tot : ∀ a b, ge a b = true ∨ ge b a = true)
-    (anti : ∀ a b, ge a b = true → ge b a = true → a = b) (xa yb : C) : loser ge yb xa = loser ge xa yb := by
-  unfold loser
-  cases h1 : ge xa yb <;> cases h2 : ge yb xa <;> simp
-  · rcases tot xa yb with h | h <;> simp_all
-  · exact anti xa yb h1 h2
-
-theorem shape_swap (x y : Option C) (act : Action) (h : Shape x y act) : Shape y x (swapAct act) := by
-  cases h with
-  | noop => exact .noop
-  | conv v h1 h2 => exact .conv v h2 h1
-  | ab v h1 => exact .ba v h1
-  | ba v h1 => exact .ab v h1
-  | delA h1 => exact .delB h1
-  | delB h1 => exact .delA h1
-  | dvmA v h1 h2 => exact .dvmB v h2 h1
-  | dvmB v h1 h2 => exact .dvmA v h2 h1
-  | both xa yb h1 h2 => exact .both yb xa h2 h1
-
-/-- executing the mirrored action on the mirrored pair gives the mirrored result -/
-theorem resolve_swap (ge : C → C → Bool) (tot : ∀ a b, ge a b = true ∨ ge b a = true)
-    (anti : ∀ a b, ge a b = true → ge b a = true → a = b) (x y : Option C) (act : Action) (h : Shape x y act) :
-    resolve ge (swapAct act) y x = ((resolve ge act x y).2, (resolve ge act x y).1) := by
-  cases h with
-  | noop => simp [swapAct, resolve]
-  | conv v h1 h2 => subst h1 h2; simp [swapAct, resolve]
-  | ab v h1 => subst h1; simp [swapAct, resolve]
-  | ba v h1 => subst h1; simp [swapAct, resolve]
-  | delA h1 => subst h1; simp [swapAct, resolve]
-  | delB h1 => subst h1; simp [swapAct, resolve]
-  | dvmA v h1 h2 => subst h1 h2; simp [swapAct, resolve]
-  | dvmB v h1 h2 => subst h1 h2; simp [swapAct, resolve]
-  | both xa yb h1 h2 => subst h1 h2; simp [swapAct, resolve, winner_comm ge tot anti]
-
-theorem ccName_swap (ge : C → C → Bool) (tot : ∀ a b, ge a b = true ∨ ge b a = true)
-    (anti : ∀ a b, ge a b = true → ge b a = true → a = b) (cname : P → C → P) (p : P) (x y : Option C) (act : Action) :
-    ccName ge cname p (swapAct act) y x = ccName ge cname p act x y := by
-  cases act with
-  | conflict k =>
-    cases k with
-    | bothChanged => cases x <;> cases y <;> simp [swapAct, ccName, loser_comm ge tot anti]
-    | deleteVsModify => cases x <;> cases y <;> simp [swapAct, ccName]
-  | _ => cases x <;> cases y <;> simp [swapAct, ccName]
-
-/-- the state with the two roots named the other way round -/
-def swapState (s : State P C) : State P C := { A := s.B, B := s.A, arch := s.arch }
 
 theorem plan_swap (le : P → P → Bool) (s : State P C) (p : P) (act : Action) :
     (p, act) ∈ bisyncPlan le (swapState s) ↔ (p, swapAct act) ∈ bisyncPlan le s := by
